@@ -141,7 +141,7 @@ def diff_init(stored: bytes, served: bytes, live: bool):
     return problems, appended, removed[0]
 
 
-def check_pssh(served: bytes, box, kid: bytes):
+def check_pssh(served: bytes, box, kid: bytes, kids: list[bytes] | None = None):
     """-> (system name or None, problem or None)"""
     try:
         p = ib.read_pssh(served, box)
@@ -161,9 +161,19 @@ def check_pssh(served: bytes, box, kid: bytes):
                                  f'WRMHEADER KIDs {[k["kid_le"].hex() for k in hdr["kids"]]} lack {want.hex()}')
         if p['version'] > 0 and kid not in p['kids']:
             return 'playready', ('playready-pssh-wrong-kid', 'v1 pssh KID list lacks the track KID')
+        if kids is not None:
+            # every key id of the track, each once
+            have = sorted(k['kid_le'] for k in hdr['kids'])
+            if have != sorted(pr.le_guid(k) for k in kids):
+                return 'playready', ('playready-header-kids-differ-from-track-kids',
+                                     f'WRMHEADER KIDs {[k.hex() for k in have]}, the track has '
+                                     f'{[pr.le_guid(k).hex() for k in kids]}')
+            if p['version'] > 0 and sorted(p['kids']) != sorted(kids):
+                return 'playready', ('playready-pssh-kid-list-differs-from-track-kids',
+                                     f'{[k.hex() for k in p["kids"]]}')
         return 'playready', None
     if p['system_id'] == pr.CLEARKEY_PSSH_SYSTEM_ID:
-        if p['version'] != 1 or kid not in p['kids']:
+        if p['version'] != 1 or kid not in p['kids'] or (kids is not None and sorted(p['kids']) != sorted(kids)):
             return 'clearkey', ('clearkey-pssh-wrong-kid',
                                 f'version {p["version"]} kids {[k.hex() for k in p["kids"]]} want {kid.hex()}')
         if p['data']:
@@ -181,6 +191,8 @@ def run_shard(ctx: ShardCtx) -> ShardResult:
     try:
         env.add_fixture_stream('bbb')
         env.add_fixture_stream('tears')
+        from dlv import synth
+        track_kids = synth.add_protection_variants_stream(env, res)
         mps = add_mps_db(env, 'c10mps', [
             {'pid': 'p1', 'stream': 'bbb', 'start': 4, 'duration': 32,
              'tracks': [('video', 1, 'main'), ('audio', 2, 'main'), ('audio', 3, 'alternate'), ('text', 4, 'main')]},
@@ -202,7 +214,8 @@ def run_shard(ctx: ShardCtx) -> ShardResult:
             first = sf.init_boxes[0].start
             ext = {b'vide': 'm4v', b'soun': 'm4a'}.get(sf.handler, 'mp4')
             files.append({'dir': directory, 'name': name, 'ext': ext, 'init': buf,
-                          'kid': sf.tenc['kid'] if sf.tenc else None})
+                          'kid': sf.tenc['kid'] if sf.tenc else None,
+                          'kids': track_kids.get(name, [sf.tenc['kid']] if sf.tenc else None)})
         sels = selections()
         versions = [None, '1.0', '2.0', '3.0', '4.0']
         if ctx.replay:
@@ -218,6 +231,8 @@ def run_shard(ctx: ShardCtx) -> ShardResult:
                             if ver is not None and 'playready' not in exp:
                                 continue
                             for route in ('single', 'mps'):
+                                if route == 'mps' and f['dir'] not in ppk:
+                                    continue
                                 idx += 1
                                 if idx % ctx.nshards != ctx.shard:
                                     continue
@@ -266,7 +281,7 @@ def run_shard(ctx: ShardCtx) -> ShardResult:
                         want.add(sysname)
             got = []
             for box in appended:
-                sysname, problem = check_pssh(resp.data, box, f['kid'] or b'\0' * 16)
+                sysname, problem = check_pssh(resp.data, box, f['kid'] or b'\0' * 16, f['kids'])
                 if problem is not None:
                     res.violation(problem[0], f'{url}: {problem[1]}', replay)
                 if sysname:
